@@ -478,6 +478,7 @@ bool muggle_avl_tree_init(muggle_avl_tree_t *p_avl_tree, muggle_dsaa_data_cmp cm
 		if (!muggle_memory_pool_init(p_avl_tree->pool, capacity, sizeof(muggle_avl_tree_node_t)))
 		{
 			free(p_avl_tree->pool);
+			p_avl_tree->pool = NULL;
 			return false;
 		}
 	}
